@@ -39,7 +39,7 @@ def confirm(pid, k):
         rct, ot = sh("/venv/bin/python -m pytest -q -p no:cacheprovider --timeout=900 -n 4 2>&1 | tail -3", cwd=wt)
         passed = "138 passed" in ot
         rc1, o1 = sh(f"/venv/bin/python {demo}", cwd=wt, timeout=900)
-        sh("git diff > /tmp/confirm/%s.diff" % sid, cwd=wt)
+        sh("git diff HEAD > /tmp/confirm/%s.diff" % sid, cwd=wt)
         ok = (rc0 == 0) and (rc1 != 0) and passed
         verdict = f"clean demo rc={rc0}, changed demo rc={rc1}, tests: {ot.strip().splitlines()[-1] if ot.strip() else '?'}"
         if ok:
